@@ -93,6 +93,8 @@ KINDS = {"Molecule": Molecule, "Structure": Structure}
 ARG_CLASS = {"list": "sequence", "tuple": "sequence", "set": "set", "gen": "one-shot", "iter": "one-shot", "map": "one-shot"}
 
 UNSPEC = None  # value nobody specified: must be numeric, is pinned after the step
+NEUTRAL = 0.0  # documented: an atom added without an explicit charge is neutral
+NAN3 = (float("nan"),) * 3  # documented: an atom adopted without a position gets a NaN row
 
 
 class Rec:
@@ -458,7 +460,7 @@ class MSys:
                     el = a.element.symbol
                 except Exception:
                     el = "?"
-                st.atoms[aid] = Rec(a, el, a.label, UNSPEC, UNSPEC)
+                st.atoms[aid] = Rec(a, el, a.label, UNSPEC, NEUTRAL)  # created by a routine: position is the routine's business, the charge is neutral
                 st.ident[id(a)] = aid
         # bonds: those between survivors must still be there
         old = Counter(p for p in st.bonds if p[0] not in gone and p[1] not in gone)
@@ -634,7 +636,7 @@ class MSys:
                 ch = charge_of(aid)
                 call = lambda: m.add_atom(a, arg, ch)
             else:
-                ch = UNSPEC
+                ch = NEUTRAL
                 call = lambda: m.add_atom(a, arg)
 
             def predict():
@@ -671,7 +673,7 @@ class MSys:
                 a = box[0]
                 if not isinstance(a, Atom):
                     raise _Sym("new-atom-not-returned", f"new_atom returned {a!r}")
-                st.atoms[aid] = Rec(a, e, label_of(aid), xyz, UNSPEC)
+                st.atoms[aid] = Rec(a, e, label_of(aid), xyz, NEUTRAL)
                 st.ident[id(a)] = aid
 
         elif kind == "add_bad":
@@ -761,7 +763,7 @@ class MSys:
                 ids = []
                 for a, e in new:
                     aid = self._fresh(st)
-                    st.atoms[aid] = Rec(a, e, a.label, UNSPEC, UNSPEC)
+                    st.atoms[aid] = Rec(a, e, a.label, NAN3, NEUTRAL)
                     st.ident[id(a)] = aid
                     ids.append(aid)
                 st.bonds += newpairs(ids)
@@ -819,7 +821,7 @@ class MSys:
                 ids = []
                 for a, e in new:
                     aid = self._fresh(st)
-                    st.atoms[aid] = Rec(a, e, a.label, UNSPEC, UNSPEC)
+                    st.atoms[aid] = Rec(a, e, a.label, NAN3, NEUTRAL)
                     st.ident[id(a)] = aid
                     ids.append(aid)
                 st.bonds += newpairs(ids)
@@ -1438,7 +1440,12 @@ def run(ctx):
         "map, empty); the result must not depend on the kind",
         "stale user-held row views across add/del are not part of the claim; a row view handed INTO add_atom (add an atom where atom i "
         "is) must be copied: the new atom keeps that value",
-        "values nobody specified (charge of add_atom without charge, position of an implicit hydrogen) need only be numeric "
+        "an atom that enters without an explicit charge (add_atom(a, xyz), new_atom, an end point adopted by append_bond(s) / "
+        "extend_bonds, implicit hydrogens, the attachment point of remove_substituent) is NEUTRAL: its partial charge is exactly 0.0 "
+        "(documented in Molecule.add_atom); an end point adopted without a position has a NaN coordinate row (documented in "
+        "CartesianGeometry.append_atom); every start state carries pairwise distinct non-zero charges and distinct rows, so a "
+        "repeat / roll / fill-from-neighbour is visible",
+        "values nobody specified (position of an implicit hydrogen) need only be numeric "
         "(NaN counts as numeric) and are pinned to what the object reports; clone / unpickled start states are taken as they "
         "report themselves (fidelity of copies is C06)",
         "the order of mol.atoms is not prescribed; del_atom(i) must delete the atom mol.atoms[i] named before the call",
